@@ -330,6 +330,13 @@ Inductive event : Set :=
   (* the connection-state task observes one thing *)
   | ObsIce | ObsDtls | ObsLoops | ObsGrace.
 
+(* Dropping the last application handle reaches Drop for PeerConnectionInner only if nothing inside the
+   connection holds a strong reference to it: start_dtls does while it runs; the DataChannel listener must
+   not (it upgrades its weak reference per announcement) -- otherwise a connected PeerConnection on which the
+   peer has announced a channel would keep itself alive for good *)
+Definition drop_deferred (s : st) : bool :=
+  if dc_listener_holds_weak then task_eqb (task s) TStarting else true.
+
 Definition start_err (s : st) : st :=
   (* start_dtls returned Err: its local sctp runner future is dropped (cleanup guard), DtlsFailed, Failed, task ends *)
   let s1 := guard_exit s in
@@ -339,7 +346,7 @@ Definition start_err (s : st) : st :=
 Definition step (s : st) (e : event) : st :=
   match e with
   | Close => close_with s DisconnectReason_LocalClose
-  | Drop => if task_eqb (task s) TStarting then w_misc s (want_sctp s) true else do_drop s
+  | Drop => if drop_deferred s then w_misc s (want_sctp s) true else do_drop s
   | IceStop => w_low s TClosed (dtls s) (dtls_run s)
   | CreateChannel => w_chans s (chans s ++ [new_chan])
   | Negotiate app =>
@@ -586,7 +593,8 @@ Definition explore (fuel : nat) (s : st) (threads : list (list (option event))) 
 
 (* ------------------------------------------------------------------ phases (how the harness gets there) *)
 Inductive phase : Set :=
-  | PhCreated | PhOfferSet | PhChecking | PhDtlsHandshaking | PhDtlsConnected | PhChannelsOpen | PhDirectConnected.
+  | PhCreated | PhOfferSet | PhChecking | PhDtlsHandshaking | PhDtlsConnected | PhChannelsOpen | PhDirectConnected
+  | PhTwoChannelsOpen.   (* the second channel stands for one the peer announced in-band (DCEP): a channel like any other *)
 
 Definition phase_events (p : phase) : list event :=
   match p with
@@ -597,6 +605,7 @@ Definition phase_events (p : phase) : list event :=
   | PhDtlsConnected => [Negotiate false; ObsIce; IceUp; ObsIce; DtlsDone; ObsDtls]
   | PhChannelsOpen => [CreateChannel; Negotiate true; ObsIce; IceUp; ObsIce; DtlsDone; ObsDtls; SctpUp]
   | PhDirectConnected => [Negotiate false; ObsIce; IceUp; ObsIce]
+  | PhTwoChannelsOpen => [CreateChannel; CreateChannel; Negotiate true; ObsIce; IceUp; ObsIce; DtlsDone; ObsDtls; SctpUp]
   end.
 Definition phase_webrtc (p : phase) : bool := match p with PhDirectConnected => false | _ => true end.
 Definition phase_state (w : bool) (p : phase) : st := run (init w) (phase_events p).
